@@ -1,4 +1,964 @@
 package main
 
-// checkBasictlCanonicalReaders is shared by C02 (clause c) and C33; filled in c33 rules.
-func checkBasictlCanonicalReaders(c *Check) {}
+// C33 (and clause c of C02, parts of C13): decision tables of the basictl primitives, extracted from the
+// type-checked source and compared with the documented layout frozen here and with each other.
+
+import (
+	"fmt"
+	"go/token"
+	"go/types"
+	"regexp"
+	"sort"
+	"strings"
+)
+
+func init() { register("C33", checkC33) }
+
+type bctx struct {
+	c      *Check
+	co     *Corpus
+	pkg    string // display name of the copy ("pkg/basictl", …)
+	funcs  map[*types.Func]*FuncInfo
+	byName map[string]*FuncInfo
+	irs    map[string]*FuncIR
+}
+
+func (b *bctx) ir(name string) *FuncIR {
+	if ir, ok := b.irs[name]; ok {
+		return ir
+	}
+	fi := b.byName[name]
+	if fi == nil {
+		return nil
+	}
+	ir := buildFuncIR(fi, b.funcs, b.co.Fset)
+	b.irs[name] = ir
+	return ir
+}
+
+func (b *bctx) pos(name string) string {
+	if fi := b.byName[name]; fi != nil {
+		return posStr(b.co.Fset, fi.Decl.Pos())
+	}
+	return b.pkg
+}
+
+func (b *bctx) ob(rule, fn string, ok bool, detail string) {
+	b.c.Ob(rule, b.pkg+"."+fn, ok, b.pos(fn), detail)
+}
+
+var basictlCopies = []struct {
+	pattern, name string
+	optional      bool
+}{
+	{"./pkg/basictl", "pkg/basictl", false},
+	{"./internal/vkgo/pkg/basictl", "internal/vkgo/pkg/basictl", false},
+	{"./internal/tlast/gentlo/basictl", "internal/tlast/gentlo/basictl", true},
+}
+
+func loadBasictl(c *Check) []*bctx {
+	var pats []string
+	for _, cp := range basictlCopies {
+		pats = append(pats, cp.pattern)
+	}
+	co, err := loadRepoCorpus(pats...)
+	if err != nil {
+		c.Undecided("load", "basictl", "", err.Error())
+		return nil
+	}
+	funcs := co.allFuncs()
+	var out []*bctx
+	for _, cp := range basictlCopies {
+		b := &bctx{c: c, co: co, pkg: cp.name, funcs: funcs, byName: map[string]*FuncInfo{}, irs: map[string]*FuncIR{}}
+		for _, fi := range funcs {
+			if strings.HasSuffix(fi.Pkg.PkgPath, strings.TrimPrefix(cp.pattern, ".")) && fi.Obj.Type().(*types.Signature).Recv() == nil {
+				b.byName[fi.Obj.Name()] = fi
+			}
+		}
+		if len(b.byName) == 0 {
+			c.Undecided("load", cp.name, "", "no functions found")
+			continue
+		}
+		out = append(out, b)
+	}
+	c.Set("packages", len(co.Pkgs))
+	return out
+}
+
+// ---------------------------------------------------------------------------------------------
+// small queries over the IR
+
+func allNodes(blk Block) []Node {
+	var out []Node
+	walkBlock(blk, nil, func(n Node, _ []Guard) { out = append(out, n) })
+	return out
+}
+
+func returnsOf(blk Block) []*ReturnN {
+	var out []*ReturnN
+	for _, n := range blk {
+		if r, ok := n.(*ReturnN); ok {
+			out = append(out, r)
+		}
+	}
+	return out
+}
+
+var eofRx = regexp.MustCompile(`io\.ErrUnexpectedEOF`)
+
+func isEOFReturn(r *ReturnN) bool {
+	if len(r.Vals) == 0 {
+		return false
+	}
+	last := r.Vals[len(r.Vals)-1]
+	if last == "io.ErrUnexpectedEOF" {
+		return true
+	}
+	return strings.Contains(last, "fmt.Errorf(") && strings.Contains(last, "%w") && eofRx.MatchString(last)
+}
+
+// eofBlock: the block returns io.ErrUnexpectedEOF (directly, or fmt.Errorf wrapping it with %w).
+func eofBlock(blk Block) bool {
+	for i, n := range blk {
+		r, ok := n.(*ReturnN)
+		if !ok {
+			continue
+		}
+		if isEOFReturn(r) {
+			return true
+		}
+		if len(r.Vals) == 1 && r.Vals[0] == "<tail>" && i > 0 {
+			if call, ok := blk[i-1].(*CallN); ok && call.Fn != nil && call.Fn.Name() == "Errorf" {
+				a := strings.Join(call.Args, ",")
+				return strings.Contains(a, "%w") && eofRx.MatchString(a)
+			}
+		}
+	}
+	return false
+}
+
+func isLenGuard(c *Cond) (bound string, ok bool) {
+	if c == nil {
+		return "", false
+	}
+	if c.Kind == "nz" && c.Neg && c.X == "len(buf)" {
+		return "#1", true // len(buf) == 0  ≡ len(buf) < 1
+	}
+	if c.Kind == "cmp" && !c.Neg && c.Op == "<" && c.X == "len(buf)" {
+		return c.Y, true
+	}
+	return "", false
+}
+
+var composeRx = regexp.MustCompile(`buf\[#(\d+)\] << #(\d+)`)
+
+func composeOf(s string) string {
+	var parts []string
+	for _, m := range composeRx.FindAllStringSubmatch(s, -1) {
+		parts = append(parts, m[1]+"<<"+m[2])
+	}
+	sort.Strings(parts)
+	return strings.Join(parts, ",")
+}
+
+var advRx = regexp.MustCompile(`^buf\[(#\d+|[^:\]]+):\]$`)
+
+// armFacts extracts the attribute table of one switch arm of a length decoder.
+type armFacts struct {
+	Guard   string
+	EOF     []string
+	Compose string
+	Advance string
+	Assigns map[string]string
+	Rejects []string
+	Returns []string
+}
+
+func factsOfArm(guard string, body Block) armFacts {
+	f := armFacts{Guard: guard, Assigns: map[string]string{}}
+	for _, n := range body {
+		switch n := n.(type) {
+		case *IfN:
+			if bd, ok := isLenGuard(n.Cond); ok {
+				rs := returnsOf(n.Then)
+				if len(rs) == 1 && isEOFReturn(rs[0]) {
+					f.EOF = append(f.EOF, bd)
+				} else {
+					f.EOF = append(f.EOF, bd+"!noEOF")
+				}
+				continue
+			}
+			rs := returnsOf(n.Then)
+			if len(rs) == 1 && len(rs[0].Vals) > 0 && rs[0].Vals[len(rs[0].Vals)-1] != "nil" {
+				f.Rejects = append(f.Rejects, n.Cond.String())
+			}
+		case *AssignN:
+			if len(n.LHS) == 1 && len(n.RHS) == 1 {
+				if n.LHS[0] == "buf" {
+					if m := advRx.FindStringSubmatch(n.RHS[0]); m != nil {
+						f.Advance = m[1]
+					}
+					continue
+				}
+				f.Assigns[n.LHS[0]] = n.RHS[0]
+				if c := composeOf(n.RHS[0]); c != "" {
+					f.Compose = c
+				}
+			}
+		case *CallN:
+			if len(n.Results) == 1 && n.Fn != nil {
+				f.Assigns[n.Results[0]] = funcDisplayName(n.Fn) + "(" + strings.Join(n.Args, ",") + ")"
+			}
+		case *ReturnN:
+			f.Returns = append(f.Returns, strings.Join(n.Vals, ","))
+		}
+	}
+	return f
+}
+
+func renameLocals(s string, m map[string]string) string {
+	return localRx.ReplaceAllStringFunc(s, func(l string) string {
+		if r, ok := m[l]; ok {
+			return r
+		}
+		return l
+	})
+}
+
+// ---------------------------------------------------------------------------------------------
+// rules
+
+var fixedReaders = map[string]struct {
+	K      string
+	Decode string
+	Writer string
+}{
+	"NatRead":    {"#4", "LittleEndian.Uint32(buf)", "NatWrite"},
+	"IntRead":    {"#4", "LittleEndian.Uint32(buf)", "IntWrite"},
+	"FloatRead":  {"#4", "LittleEndian.Uint32(buf)", "FloatWrite"},
+	"LongRead":   {"#8", "LittleEndian.Uint64(buf)", "LongWrite"},
+	"DoubleRead": {"#8", "LittleEndian.Uint64(buf)", "DoubleWrite"},
+	"Uint64Read": {"#8", "LittleEndian.Uint64(buf)", "Uint64Write"},
+	"ByteRead":   {"#1", "buf[#0]", "ByteWrite"},
+}
+
+// writerWidth computes how many bytes a fixed-width writer appends and checks little-endian order.
+func (b *bctx) writerWidth(name string, depth int) (int, string) {
+	ir := b.ir(name)
+	if ir == nil || depth > 3 {
+		return -1, "writer " + name + " not found"
+	}
+	for _, n := range ir.Body {
+		call, ok := n.(*CallN)
+		if !ok {
+			continue
+		}
+		if call.Builtin == "append" {
+			if len(call.Args) < 2 || call.Args[0] != "buf" {
+				return -1, "append to something other than the buffer"
+			}
+			k := len(call.Args) - 1
+			v := call.Args[1]
+			for i := 1; i < k; i++ {
+				want := fmt.Sprintf("(%s >> #%d)", v, 8*i)
+				if call.Args[1+i] != want {
+					return -1, fmt.Sprintf("byte %d of %s is %s, want %s (little-endian)", i, name, call.Args[1+i], want)
+				}
+			}
+			if strings.Contains(v, ">>") || strings.Contains(v, "<<") {
+				return -1, "byte 0 is shifted: " + v
+			}
+			return k, ""
+		}
+		if call.Fn != nil {
+			if _, ok := b.byName[call.Fn.Name()]; ok && call.Fn.Pkg() == b.byName[name].Pkg.Types {
+				if len(call.Args) >= 1 && call.Args[0] == "buf" {
+					return b.writerWidth(call.Fn.Name(), depth+1)
+				}
+			}
+		}
+	}
+	return -1, "no append found in " + name
+}
+
+func (b *bctx) ruleFixedWidth() {
+	for _, name := range sortedKeysAny(fixedReaders) {
+		spec := fixedReaders[name]
+		ir := b.ir(name)
+		if ir == nil {
+			if b.pkg == "pkg/basictl" {
+				b.c.Undecided("fixed-width", b.pkg+"."+name, "", "anchor function not found")
+			}
+			continue
+		}
+		var problems []string
+		// guard
+		foundGuard, foundDecode, foundRet := false, false, false
+		for _, n := range ir.Body {
+			switch n := n.(type) {
+			case *IfN:
+				if bd, ok := isLenGuard(n.Cond); ok {
+					rs := returnsOf(n.Then)
+					if bd == spec.K && len(rs) == 1 && isEOFReturn(rs[0]) {
+						foundGuard = true
+					} else {
+						problems = append(problems, fmt.Sprintf("length guard %s (want %s, returning io.ErrUnexpectedEOF)", bd, spec.K))
+					}
+				}
+			case *AssignN:
+				if len(n.LHS) == 1 && n.LHS[0] == "val" && strings.Contains(strings.Join(n.RHS, ""), spec.Decode) {
+					foundDecode = true
+				}
+			case *CallN:
+				if len(n.Results) == 1 && n.Results[0] == "val" && n.Fn != nil && strings.HasSuffix(n.Recv, "LittleEndian") &&
+					"LittleEndian."+n.Fn.Name()+"("+strings.Join(n.Args, ",")+")" == spec.Decode {
+					foundDecode = true
+				}
+				// math.Float32frombits(binary.LittleEndian.Uint32(r))
+				if len(n.Results) == 1 && n.Results[0] == "val" && n.Fn != nil && strings.HasSuffix(n.Fn.Name(), "frombits") && len(n.Args) == 1 && strings.HasSuffix(n.Args[0], spec.Decode) {
+					foundDecode = true
+				}
+			case *ReturnN:
+				if len(n.Vals) == 2 && n.Vals[1] == "nil" {
+					foundRet = n.Vals[0] == "buf["+spec.K+":]"
+					if !foundRet {
+						problems = append(problems, "success return advances by "+n.Vals[0]+", want buf["+spec.K+":]")
+					}
+				}
+			}
+		}
+		if !foundGuard {
+			problems = append(problems, "no `len(r) < "+spec.K+" → io.ErrUnexpectedEOF` guard before reading")
+		}
+		if !foundDecode {
+			problems = append(problems, "value is not decoded with "+spec.Decode)
+		}
+		w, msg := b.writerWidth(spec.Writer, 0)
+		if msg != "" {
+			problems = append(problems, msg)
+		} else if fmt.Sprintf("#%d", w) != spec.K {
+			problems = append(problems, fmt.Sprintf("%s appends %d bytes but %s consumes %s", spec.Writer, w, name, spec.K))
+		}
+		b.ob("fixed-width-pair", name+"~"+spec.Writer, len(problems) == 0, fmt.Sprintf("width %s %s", spec.K, strings.Join(problems, "; ")))
+	}
+}
+
+// documented TL1 string length layout
+var tl1ArmSpec = []struct {
+	Guard, EOF, Compose, Advance, PadBase string
+	Rejects                               []string
+}{
+	{"(buf[#0] <= #253)", "", "", "#1", "(L + #1)", nil},
+	{"!(buf[#0] != #254)", "#4", "1<<0,2<<8,3<<16", "#4", "L", []string{"(L <= #253)"}},
+	{"default", "#8", "1<<0,2<<8,3<<16,4<<24,5<<32,6<<40,7<<48", "#8", "L", []string{"(#9223372036854775807 < L64)", "(L <= #16777215)"}},
+}
+
+func (b *bctx) ruleStringRead(name string) {
+	ir := b.ir(name)
+	if ir == nil {
+		b.c.Undecided("tl1-string-read", b.pkg+"."+name, "", "anchor function not found")
+		return
+	}
+	var sw *SwitchN
+	swIdx := -1
+	for i, n := range ir.Body {
+		if s, ok := n.(*SwitchN); ok && s.Tag == "" {
+			sw = s
+			swIdx = i
+			break
+		}
+	}
+	if sw == nil {
+		b.c.Undecided("tl1-string-read", b.pkg+"."+name, b.pos(name), "length decoder is not a tagless switch over the first byte")
+		return
+	}
+	// first guard: empty input
+	firstOK := false
+	for _, n := range ir.Body[:swIdx] {
+		if in, ok := n.(*IfN); ok {
+			if bd, ok := isLenGuard(in.Cond); ok && bd == "#1" {
+				rs := returnsOf(in.Then)
+				firstOK = len(rs) == 1 && isEOFReturn(rs[0])
+			}
+		}
+	}
+	b.ob("tl1-string-read/empty-input-eof", name, firstOK, "len(r)==0 → io.ErrUnexpectedEOF before touching r[0]")
+	// roles of locals: P = argument of paddingLen, PAD = its result, L = local compared with len(buf) after the switch
+	roles := map[string]string{}
+	post := ir.Body[swIdx+1:]
+	for _, n := range post {
+		if call, ok := n.(*CallN); ok && call.Fn != nil && call.Fn.Name() == "paddingLen" && len(call.Args) == 1 && len(call.Results) == 1 {
+			roles[call.Args[0]] = "P"
+			roles[call.Results[0]] = "PAD"
+		}
+	}
+	if len(sw.Cases) > 0 {
+		for _, n := range sw.Cases[0].Body {
+			if a, ok := n.(*AssignN); ok && len(a.LHS) == 1 && len(a.RHS) == 1 && a.RHS[0] == "buf[#0]" && localRx.MatchString(a.LHS[0]) {
+				if _, has := roles[a.LHS[0]]; !has {
+					roles[a.LHS[0]] = "L"
+				}
+			}
+		}
+	}
+	if len(sw.Cases) != len(tl1ArmSpec) {
+		b.ob("tl1-string-read/arms", name, false, fmt.Sprintf("%d arms, documented layout has 3 (tiny ≤253, medium marker 254, huge marker 255)", len(sw.Cases)))
+		return
+	}
+	for i, cs := range sw.Cases {
+		spec := tl1ArmSpec[i]
+		guard := "default"
+		if !cs.Default {
+			guard = strings.Join(cs.Vals, "|")
+		}
+		f := factsOfArm(guard, cs.Body)
+		// any other local in this arm is the 64-bit temporary
+		for l := range f.Assigns {
+			if _, ok := roles[l]; !ok && localRx.MatchString(l) {
+				roles[l] = "L64"
+			}
+		}
+		var problems []string
+		if f.Guard != spec.Guard {
+			problems = append(problems, "arm guard "+f.Guard+" want "+spec.Guard)
+		}
+		if strings.Join(f.EOF, ",") != spec.EOF {
+			problems = append(problems, "truncation guard len(r) < "+strings.Join(f.EOF, ",")+" want "+spec.EOF)
+		}
+		if f.Compose != spec.Compose {
+			problems = append(problems, "length bytes "+f.Compose+" want "+spec.Compose)
+		}
+		if i == 0 {
+			var lloc string
+			for l, r := range roles {
+				if r == "L" {
+					lloc = l
+				}
+			}
+			if f.Assigns[lloc] != "buf[#0]" {
+				problems = append(problems, "tiny length is "+f.Assigns[lloc]+" want r[0]")
+			}
+		}
+		if f.Advance != spec.Advance {
+			problems = append(problems, "header size "+f.Advance+" want "+spec.Advance)
+		}
+		pb := ""
+		for l, r := range roles {
+			if r == "P" {
+				pb = renameLocals(f.Assigns[l], roles)
+			}
+		}
+		if pb != spec.PadBase {
+			problems = append(problems, "padding base "+pb+" want "+spec.PadBase)
+		}
+		var rj []string
+		for _, r := range f.Rejects {
+			rj = append(rj, renameLocals(r, roles))
+		}
+		if strings.Join(rj, ";") != strings.Join(spec.Rejects, ";") {
+			problems = append(problems, "rejections ["+strings.Join(rj, "; ")+"] want ["+strings.Join(spec.Rejects, "; ")+"] (non-minimal length forms must be rejected)")
+		}
+		b.ob("tl1-string-read/arm", fmt.Sprintf("%s/arm%d", name, i), len(problems) == 0, strings.Join(problems, "; "))
+	}
+	// post: data guard, padding guard, padding loop, return
+	var dataGuard, padGuard, padLoop, ret bool
+	for _, n := range post {
+		switch n := n.(type) {
+		case *IfN:
+			if bd, ok := isLenGuard(n.Cond); ok {
+				rs := returnsOf(n.Then)
+				eof := len(rs) == 1 && isEOFReturn(rs[0])
+				switch renameLocals(bd, roles) {
+				case "L":
+					dataGuard = dataGuard || eof
+				case "(L + PAD)":
+					padGuard = padGuard || eof
+				}
+			}
+			// StringReadBytes wraps the data guard in `if l > 0 {…}`
+			for _, m := range n.Then {
+				if in, ok := m.(*IfN); ok {
+					if bd, ok := isLenGuard(in.Cond); ok && renameLocals(bd, roles) == "L" {
+						rs := returnsOf(in.Then)
+						dataGuard = dataGuard || (len(rs) == 1 && isEOFReturn(rs[0]))
+					}
+				}
+			}
+		case *LoopN:
+			if n.Count && renameLocals(n.Over, roles) == "PAD" && len(n.Body) == 1 {
+				if in, ok := n.Body[0].(*IfN); ok && in.Cond.Kind == "nz" && !in.Cond.Neg && renameLocals(in.Cond.X, roles) == "buf[(L + *)]" {
+					rs := returnsOf(in.Then)
+					padLoop = len(rs) == 1 && strings.HasSuffix(rs[0].Vals[len(rs[0].Vals)-1], "errBadPadding")
+				}
+			}
+		case *ReturnN:
+			if len(n.Vals) == 2 && n.Vals[1] == "nil" {
+				ret = renameLocals(n.Vals[0], roles) == "buf[(L + PAD):]"
+			}
+		}
+	}
+	b.ob("tl1-string-read/data-guard", name, dataGuard, "len(r) < l → io.ErrUnexpectedEOF before taking the data")
+	b.ob("tl1-string-read/padding-guard", name, padGuard, "len(r) < l+padding → io.ErrUnexpectedEOF")
+	b.ob("tl1-string-read/padding-zero-check", name, padLoop, "every padding byte r[l+i], i<padding, is compared with 0 and rejected with errBadPadding")
+	b.ob("tl1-string-read/consumed", name, ret, "success returns r[l+padding:]")
+}
+
+func (b *bctx) ruleStringWrite() {
+	ir := b.ir("StringWriteLen")
+	if ir == nil {
+		// older copy: StringWrite inlines the length code; compare nothing but record
+		b.c.Info("%s has no StringWriteLen (older revision); writer-side table not extracted for this copy", b.pkg)
+		return
+	}
+	var sw *SwitchN
+	for _, n := range ir.Body {
+		if s, ok := n.(*SwitchN); ok && s.Tag == "" {
+			sw = s
+		}
+	}
+	if sw == nil || len(sw.Cases) != 3 {
+		b.c.Undecided("tl1-string-write", b.pkg+".StringWriteLen", b.pos("StringWriteLen"), "length encoder is not a 3-arm tagless switch")
+		return
+	}
+	// roles: L = the local aliasing the length parameter, P = local returned modulo 4
+	roles := map[string]string{}
+	for _, n := range ir.Body {
+		if a, ok := n.(*AssignN); ok && a.Tok == token.DEFINE && len(a.RHS) == 1 && a.RHS[0] == "val" {
+			roles[a.LHS[0]] = "L"
+		}
+		if r, ok := n.(*ReturnN); ok && len(r.Vals) == 2 {
+			if m := regexp.MustCompile(`^\((L\d+:\w+) % #4\)$`).FindStringSubmatch(r.Vals[1]); m != nil {
+				roles[m[1]] = "P"
+			}
+		}
+	}
+	want := []struct{ Guard, Bytes, P string }{
+		{"(L <= #253)", "L", "(L + #1)"},
+		{"(L <= #16777215)", "#254,L,(L >> #8),(L >> #16)", "L"},
+		{"default", "#255,L,(L >> #8),(L >> #16),(L >> #24),(L >> #32),(L >> #40),(L >> #48)", "L"},
+	}
+	for i, cs := range sw.Cases {
+		guard := "default"
+		if !cs.Default {
+			guard = renameLocals(strings.Join(cs.Vals, "|"), roles)
+		}
+		bytesW, p := "", ""
+		for _, n := range cs.Body {
+			switch n := n.(type) {
+			case *CallN:
+				if n.Builtin == "append" && len(n.Args) >= 2 && n.Args[0] == "buf" {
+					bytesW = renameLocals(strings.Join(n.Args[1:], ","), roles)
+				}
+			case *AssignN:
+				if len(n.LHS) == 1 && roles[n.LHS[0]] == "P" {
+					p = renameLocals(n.RHS[0], roles)
+				}
+			}
+		}
+		ok := guard == want[i].Guard && bytesW == want[i].Bytes && p == want[i].P
+		b.ob("tl1-string-write/arm", fmt.Sprintf("StringWriteLen/arm%d", i), ok, fmt.Sprintf("guard %s bytes [%s] padding base %s; documented: guard %s bytes [%s] base %s", guard, bytesW, p, want[i].Guard, want[i].Bytes, want[i].P))
+	}
+	// padding table: paddingLen(p) = (-p) mod 4 on the reader side; writer: p%4 ↦ {1:3, 2:2, 3:1}
+	if pl := b.ir("paddingLen"); pl != nil {
+		rs := returnsOf(pl.Body)
+		b.ob("tl1-padding/reader-residue", "paddingLen", len(rs) == 1 && rs[0].Vals[0] == "(-val % #4)", "paddingLen(l) = (-l) mod 4: "+strings.Join(rs[0].Vals, ","))
+	}
+	if wp := b.ir("StringWritePadding"); wp != nil {
+		table := map[string]int{}
+		ok := false
+		for _, n := range wp.Body {
+			if s, isSw := n.(*SwitchN); isSw && s.Tag == "val" {
+				ok = true
+				for _, cs := range s.Cases {
+					zeros := -1
+					for _, m := range cs.Body {
+						if call, isCall := m.(*CallN); isCall && call.Builtin == "append" && call.Args[0] == "buf" {
+							zeros = 0
+							for _, a := range call.Args[1:] {
+								if a == "#0" {
+									zeros++
+								} else {
+									zeros = -100
+								}
+							}
+						}
+					}
+					for _, v := range cs.Vals {
+						table[v] = zeros
+					}
+				}
+			}
+		}
+		// (-r) mod 4 for r = 1,2,3 ; residue 0 must add nothing
+		good := ok && table["#1"] == 3 && table["#2"] == 2 && table["#3"] == 1 && len(table) == 3
+		b.ob("tl1-padding/writer-table", "StringWritePadding", good, fmt.Sprintf("padding bytes by residue %v; reader uses (-p) mod 4 = {1:3,2:2,3:1,0:0}", table))
+	}
+	for _, name := range []string{"StringWrite", "StringWriteBytes"} {
+		ir := b.ir(name)
+		if ir == nil {
+			continue
+		}
+		seq := []string{}
+		for _, n := range ir.Body {
+			if call, ok := n.(*CallN); ok {
+				switch {
+				case call.Fn != nil:
+					seq = append(seq, call.Fn.Name()+"("+strings.Join(call.Args, ",")+")")
+				case call.Builtin == "append":
+					seq = append(seq, "append("+strings.Join(call.Args, ",")+")")
+				}
+			}
+		}
+		got := renameLocalsSeq(seq)
+		b.ob("tl1-string-write/sequence", name, got == "StringWriteLen(buf,len(val));append(buf,val);StringWritePadding(buf,$)", "header(len), data, padding(residue from header): "+got)
+	}
+}
+
+func renameLocalsSeq(seq []string) string {
+	return localRx.ReplaceAllString(strings.Join(seq, ";"), "$")
+}
+
+// TL2 varlen sizes
+func (b *bctx) ruleTL2Sizes() {
+	type arm struct{ guard, header, extra string }
+	extract := func(name string) ([]arm, string) {
+		ir := b.ir(name)
+		if ir == nil {
+			return nil, "not found"
+		}
+		var sw *SwitchN
+		for _, n := range ir.Body {
+			if s, ok := n.(*SwitchN); ok && s.Tag == "" {
+				sw = s
+			}
+		}
+		if sw == nil {
+			return nil, "no tagless switch"
+		}
+		var arms []arm
+		for _, cs := range sw.Cases {
+			a := arm{guard: "default"}
+			if !cs.Default {
+				a.guard = strings.Join(cs.Vals, "|")
+			}
+			var parts []string
+			for _, n := range allNodes(cs.Body) {
+				switch n := n.(type) {
+				case *CallN:
+					if n.Builtin == "append" {
+						parts = append(parts, "bytes("+strings.Join(n.Args[1:], ",")+")")
+					} else if n.Builtin == "panic" {
+						parts = append(parts, "panic")
+					} else if n.Fn != nil {
+						parts = append(parts, n.Fn.Name()+"("+strings.Join(n.Args, ",")+")")
+					}
+				case *AssignN:
+					parts = append(parts, strings.Join(n.LHS, ",")+"="+strings.Join(n.RHS, ","))
+				case *ReturnN:
+					parts = append(parts, "return "+strings.Join(n.Vals, ","))
+				case *IfN:
+					if bd, ok := isLenGuard(n.Cond); ok {
+						rs := returnsOf(n.Then)
+						if len(rs) == 1 && isEOFReturn(rs[0]) {
+							parts = append(parts, "eof<"+bd)
+						} else {
+							parts = append(parts, "lenguard-without-EOF<"+bd)
+						}
+					} else {
+						parts = append(parts, "if"+n.Cond.String())
+					}
+				}
+			}
+			a.extra = localRx.ReplaceAllString(strings.Join(parts, " ; "), "$")
+			arms = append(arms, a)
+		}
+		return arms, ""
+	}
+	want := map[string][]arm{
+		"TL2WriteSize": {
+			{"(val < #254)", "", "bytes(val)"},
+			{"(val < #65790)", "", "bytes(#254) ; AppendUint16(buf,(val - #254))"},
+			{"default", "", "if(val != val) ; panic ; bytes(#255) ; AppendUint64(buf,val)"},
+		},
+		"TL2PutSize": {
+			{"(val < #254)", "", "buf[#0]=val ; return #1"},
+			{"(val < #65790)", "", "buf[#0]=#254 ; PutUint16(buf[#1:],(val - #254)) ; return #3"},
+			{"default", "", "if(val != val) ; panic ; buf[#0]=#255 ; PutUint64(buf[#1:],val) ; return #9"},
+		},
+		"TL2CalculateSize": {
+			{"(val < #254)", "", "return #1"},
+			{"(val < #65790)", "", "return #3"},
+			{"default", "", "if(val != val) ; panic ; return #9"},
+		},
+		"TL2ParseSize": {
+			{"(buf[#0] < #254)", "", "$=buf[#0] ; buf=buf[#1:] ; return buf,$,nil"},
+			{"!(buf[#0] != #254)", "", "eof<#3 ; return buf,#0,io.ErrUnexpectedEOF ; $=(#254 + binary.LittleEndian.Uint16(buf[#1:])) ; buf=buf[#3:] ; return buf,$,nil"},
+			{"default", "", "eof<#9 ; return buf,#0,io.ErrUnexpectedEOF ; Uint64(buf[#1:]) ; if(#9223372036854775807 < $) ; return buf,#0,fmt.Errorf(\"string length cannot be represented as an int: %d\", $) ; buf=buf[#9:] ; return buf,$,nil"},
+		},
+	}
+	for _, name := range sortedKeysAny(want) {
+		arms, msg := extract(name)
+		if msg != "" {
+			if b.byName[name] == nil && b.pkg != "pkg/basictl" {
+				continue
+			}
+			b.c.Undecided("tl2-size", b.pkg+"."+name, b.pos(name), msg)
+			continue
+		}
+		w := want[name]
+		if len(arms) != len(w) {
+			b.ob("tl2-size/arm", name, false, fmt.Sprintf("%d arms, documented layout has 3 (<254: 1 byte; <254+65536: marker 254 + u16(l-254); else marker 255 + u64)", len(arms)))
+			continue
+		}
+		for i := range arms {
+			extra := arms[i].extra
+			// error message text is not part of the rule
+			wx := w[i].extra
+			if name == "TL2ParseSize" && i == 2 {
+				extra = regexp.MustCompile(`fmt\.Errorf\("[^"]*"`).ReplaceAllString(extra, `fmt.Errorf("…"`)
+				wx = regexp.MustCompile(`fmt\.Errorf\("[^"]*"`).ReplaceAllString(wx, `fmt.Errorf("…"`)
+			}
+			ok := arms[i].guard == w[i].guard && extra == wx
+			b.ob("tl2-size/arm", fmt.Sprintf("%s/arm%d", name, i), ok, fmt.Sprintf("guard %s: %s | documented guard %s: %s", arms[i].guard, extra, w[i].guard, wx))
+		}
+	}
+	// TL2ParseSize: first statement rejects empty input with EOF
+	if ir := b.ir("TL2ParseSize"); ir != nil {
+		ok := false
+		if in, isIf := ir.Body[0].(*IfN); isIf {
+			if bd, isG := isLenGuard(in.Cond); isG && bd == "#1" {
+				rs := returnsOf(in.Then)
+				ok = len(rs) == 1 && isEOFReturn(rs[0])
+			}
+		}
+		b.ob("tl2-size/empty-input-eof", "TL2ParseSize", ok, "len(r)==0 → io.ErrUnexpectedEOF")
+	}
+	// string TL2 readers/writers
+	for _, name := range []string{"StringReadTL2", "StringReadTL2Bytes"} {
+		ir := b.ir(name)
+		if ir == nil {
+			continue
+		}
+		var size, guard, ret bool
+		lvar := ""
+		for _, n := range allNodes(ir.Body) {
+			switch n := n.(type) {
+			case *CallN:
+				if n.Fn != nil && n.Fn.Name() == "TL2ParseSize" && len(n.Results) == 3 && n.ErrChecked {
+					size = true
+					lvar = n.Results[1]
+				}
+			case *IfN:
+				if bd, ok := isLenGuard(n.Cond); ok && bd == lvar {
+					rs := returnsOf(n.Then)
+					guard = len(rs) == 1 && isEOFReturn(rs[0])
+				}
+			case *ReturnN:
+				if len(n.Vals) == 2 && n.Vals[1] == "nil" {
+					ret = n.Vals[0] == "buf["+lvar+":]"
+				}
+			}
+		}
+		b.ob("tl2-string-read", name, size && guard && ret, fmt.Sprintf("size parsed with error check=%v; len(r) < l → EOF=%v; returns r[l:]=%v", size, guard, ret))
+	}
+	for _, name := range []string{"StringWriteTL2", "StringWriteTL2Bytes"} {
+		ir := b.ir(name)
+		if ir == nil {
+			continue
+		}
+		var seq []string
+		for _, n := range ir.Body {
+			if call, ok := n.(*CallN); ok {
+				if call.Fn != nil {
+					seq = append(seq, call.Fn.Name()+"("+strings.Join(call.Args, ",")+")")
+				} else if call.Builtin == "append" {
+					seq = append(seq, "append("+strings.Join(call.Args, ",")+")")
+				}
+			}
+		}
+		got := strings.Join(seq, ";")
+		b.ob("tl2-string-write", name, got == "TL2WriteSize(buf,len(val));append(buf,val)", got)
+	}
+	// SkipSizedValue rejects len(r) < l
+	if ir := b.ir("SkipSizedValue"); ir != nil {
+		var size, guard, adv bool
+		lvar := ""
+		for _, n := range allNodes(ir.Body) {
+			switch n := n.(type) {
+			case *CallN:
+				if n.Fn != nil && n.Fn.Name() == "TL2ParseSize" && len(n.Results) == 3 && n.ErrChecked {
+					size, lvar = true, n.Results[1]
+				}
+			case *IfN:
+				if bd, ok := isLenGuard(n.Cond); ok && bd == lvar {
+					rs := returnsOf(n.Then)
+					guard = len(rs) == 1 && rs[0].Vals[len(rs[0].Vals)-1] != "nil" && rs[0].Vals[len(rs[0].Vals)-1] != "err"
+				}
+			case *AssignN:
+				if len(n.LHS) == 1 && n.LHS[0] == "buf" && n.RHS[0] == "buf["+lvar+":]" {
+					adv = true
+				}
+			}
+		}
+		b.ob("tl2-skip-sized", "SkipSizedValue", size && guard && adv, fmt.Sprintf("size parsed=%v; len(r) < l rejected=%v; advances by l=%v", size, guard, adv))
+	}
+}
+
+// bit vectors
+func (b *bctx) ruleBitVectors() {
+	sk := func(name string) (string, bool) {
+		ir := b.ir(name)
+		if ir == nil {
+			return "", false
+		}
+		var parts []string
+		var rec func(blk Block, depth int)
+		rec = func(blk Block, depth int) {
+			for _, n := range blk {
+				switch n := n.(type) {
+				case *LoopN:
+					bound := n.Over
+					if n.Cond != nil {
+						bound = n.Cond.String()
+					}
+					parts = append(parts, fmt.Sprintf("loop[%d] %s", depth, bound))
+					rec(n.Body, depth+1)
+				case *IfN:
+					parts = append(parts, "if "+n.Cond.String())
+					rec(n.Then, depth)
+				case *AssignN:
+					if n.Tok == token.DEFINE {
+						continue
+					}
+					parts = append(parts, strings.Join(n.LHS, ",")+" "+n.Tok.String()+" "+strings.Join(n.RHS, ","))
+				case *CallN:
+					if n.Builtin == "append" {
+						parts = append(parts, "emit("+strings.Join(n.Args[1:], ",")+")")
+					} else if n.Fn != nil && n.Fn.Name() == "ByteRead" {
+						parts = append(parts, "take("+n.Args[1]+")")
+					}
+				}
+			}
+		}
+		rec(ir.Body, 0)
+		return localRx.ReplaceAllStringFunc(strings.Join(parts, " ; "), func(l string) string { return stripLocalNo(l) }), true
+	}
+	w, okw := sk("VectorBitContentWriteTL2")
+	r, okr := sk("VectorBitContentReadTL2")
+	if !okw || !okr {
+		if b.pkg == "pkg/basictl" {
+			b.c.Undecided("tl2-bit-vector", b.pkg, "", "VectorBitContent{Write,Read}TL2 not found")
+		}
+		return
+	}
+	wantW := "loop[0] ((blockOffset + #8) <= len(val)) ; loop[1] #8 ; if val[(blockOffset + *)] ; block |= (#1 << *) ; emit(block) ; blockOffset += #8 ; if (blockOffset < len(val)) ; loop[0] (len(val) - blockOffset) ; if val[(blockOffset + *)] ; block |= (#1 << *) ; emit(block)"
+	wantR := "loop[0] ((blockOffset + #8) <= len(val)) ; take(block) ; loop[1] #8 ; val[(blockOffset + *)] = ((block & (#1 << *)) != #0) ; blockOffset += #8 ; if (blockOffset < len(val)) ; take(block) ; loop[0] (len(val) - blockOffset) ; val[(blockOffset + *)] = ((block & (#1 << *)) != #0)"
+	b.ob("tl2-bit-vector/writer", "VectorBitContentWriteTL2", w == wantW, "8 values per byte, bit j = value blockOffset+j (LSB first), partial tail block: "+w)
+	b.ob("tl2-bit-vector/reader", "VectorBitContentReadTL2", r == wantR, "dual of the writer: "+r)
+}
+
+// every truncation guard of a primitive reader returns io.ErrUnexpectedEOF (itself or wrapped with %w)
+func (b *bctx) ruleTruncationEOF() {
+	readers := []string{"NatRead", "IntRead", "LongRead", "FloatRead", "DoubleRead", "Uint64Read", "ByteRead", "StringRead", "StringReadBytes",
+		"NatPeekTag", "NatReadTag", "NatReadExactTag", "TL2ParseSize", "StringReadTL2", "StringReadTL2Bytes", "CheckLengthSanity"}
+	for _, name := range readers {
+		ir := b.ir(name)
+		if ir == nil {
+			continue
+		}
+		n, bad := 0, []string{}
+		walkBlock(ir.Body, nil, func(nd Node, _ []Guard) {
+			in, ok := nd.(*IfN)
+			if !ok {
+				return
+			}
+			isTrunc := false
+			if _, ok := isLenGuard(in.Cond); ok {
+				isTrunc = true
+			}
+			if in.Cond.Kind == "cmp" && in.Cond.Op == "<" && strings.HasPrefix(in.Cond.X, "len(buf)") && !in.Cond.Neg {
+				isTrunc = true
+			}
+			if !isTrunc {
+				return
+			}
+			n++
+			if !eofBlock(in.Then) {
+				bad = append(bad, "guard "+in.Cond.String()+" does not return io.ErrUnexpectedEOF")
+			}
+		})
+		if n == 0 {
+			b.c.Undecided("truncation-eof", b.pkg+"."+name, b.pos(name), "reader has no truncation guard")
+			continue
+		}
+		b.ob("truncation-eof", name, len(bad) == 0, fmt.Sprintf("%d truncation guards; %s", n, strings.Join(bad, "; ")))
+	}
+}
+
+func (b *bctx) ruleReadBool() {
+	ir := b.ir("ReadBool")
+	if ir == nil {
+		return
+	}
+	ok := false
+	detail := "no switch over the tag"
+	for _, n := range ir.Body {
+		sw, isSw := n.(*SwitchN)
+		if !isSw {
+			continue
+		}
+		var f, t, d bool
+		for _, cs := range sw.Cases {
+			if cs.Default {
+				rs := returnsOf(cs.Body)
+				d = len(rs) == 1 && rs[0].Vals[len(rs[0].Vals)-1] != "nil"
+				continue
+			}
+			for _, m := range cs.Body {
+				if a, isA := m.(*AssignN); isA && len(a.LHS) == 1 && a.LHS[0] == "val" {
+					// parameters in declaration order: (r, v, falseTag, trueTag) → buf, val, val2, val3
+					switch {
+					case a.RHS[0] == "false" && len(cs.Vals) == 1 && cs.Vals[0] == "val2":
+						f = true
+					case a.RHS[0] == "true" && len(cs.Vals) == 1 && cs.Vals[0] == "val3":
+						t = true
+					}
+				}
+			}
+		}
+		ok = f && t && d
+		detail = fmt.Sprintf("falseTag→false=%v trueTag→true=%v default→error=%v", f, t, d)
+	}
+	b.ob("readbool-rejects-other-tags", "ReadBool", ok, detail)
+}
+
+func checkBasictlCanonicalReaders(c *Check) {
+	for _, b := range loadBasictl(c) {
+		b.ruleStringRead("StringRead")
+		b.ruleStringRead("StringReadBytes")
+		b.ruleReadBool()
+	}
+}
+
+func checkC33(c *Check) {
+	c.Explanation = "Decision tables of the basictl primitives are extracted from the type-checked source (guards folded to constants, header sizes, length-byte positions and shifts, padding bases, rejections, success returns) and compared with the documented layout frozen in the checker and with each other: TL1 strings (≤253: 1-byte header, pad base l+1; ≤2^24-1: marker 254 + 3 LE bytes; else marker 255 + 7 LE bytes, ≤2^56-1), reader rejections of non-minimal forms and non-zero padding, padding residue (-p) mod 4 on both sides, TL2 sizes (<254: 1 byte; <254+65536: 254 + u16(l-254); else 255 + u64) identically in TL2WriteSize/TL2PutSize/TL2CalculateSize/TL2ParseSize, fixed-width pairs (reader consumes what the writer appends, little-endian), bit vectors (8 per byte, LSB first, partial tail), and every truncation guard returns io.ErrUnexpectedEOF. Run on pkg/basictl and on the two other copies linked into the repository."
+	c.NotCovered = "exhaustive value round trip (would be execution); behaviour of int on 32-bit platforms; the standard library's binary.LittleEndian"
+	c.Trusted = []string{"go/types constant folding", "encoding/binary", "documented layout tables transcribed from docs/tldoc.ru.md and the code comments"}
+	for _, b := range loadBasictl(c) {
+		b.ruleFixedWidth()
+		b.ruleStringRead("StringRead")
+		b.ruleStringRead("StringReadBytes")
+		b.ruleStringWrite()
+		b.ruleTL2Sizes()
+		b.ruleBitVectors()
+		b.ruleTruncationEOF()
+		b.ruleReadBool()
+	}
+	c.Floor("fixed-width-pair", 12)
+	c.Floor("tl1-string-read/arm", 12)
+	c.Floor("tl1-string-read/padding-zero-check", 4)
+	c.Floor("tl1-string-write/arm", 6)
+	c.Floor("tl2-size/arm", 24)
+	c.Floor("truncation-eof", 25)
+	c.Floor("tl2-bit-vector/writer", 2)
+}
